@@ -564,6 +564,14 @@ const C15_CONSTRUCTS: &[&str] = &[
   "observe_on-cold",
   "delay-cold",
   "sample-cold-by-interval",
+  // nestings
+  "interval-switch_on_next-interval",
+  "flat_map-observe_on",
+  "timer-concat-timer",
+  "interval-zip-interval",
+  "interval-combine_latest-interval",
+  "observe_on-cold-error-retry",
+  "interval-window-flat_map",
 ];
 const C15_ENDINGS: &[&str] = &["terminal", "unsubscribe", "take", "first", "take_until-timer", "amb-timer", "retry", "unsubscribe-early", "unsubscribe-probes"];
 
@@ -658,6 +666,20 @@ impl Family for C15 {
           "sample-by-interval" => timed_src().sample(observables::interval(ms(d), sched())),
           "subscribe_on+interval" => iv().subscribe_on(sched()),
           "interval+delay" => iv().delay(ms(7)),
+          "interval-switch_on_next-interval" => iv().switch_on_next(observables::interval(ms(d + 30), sched()).map(|x| Val::Int(1000 + x as i64))),
+          "flat_map-observe_on" => timed_src().flat_map(move |x: Val| observables::just(x).observe_on(schedulers::new_thread_scheduler())),
+          "timer-concat-timer" => observables::timer(ms(d), sched()).map(|_| Val::Int(1)).concat(&[observables::timer(ms(d + 30), sched()).map(|_| Val::Int(2))]),
+          "interval-zip-interval" => iv().zip(&[observables::interval(ms(d + 30), sched()).map(|x| Val::Int(1000 + x as i64))]).map(Val::List),
+          "interval-combine_latest-interval" => iv().combine_latest(&[observables::interval(ms(d + 30), sched()).map(|x| Val::Int(1000 + x as i64))], Val::List),
+          "observe_on-cold-error-retry" => {
+            // every attempt of the retry creates a worker; each must go when its attempt failed
+            let mut sc = script.clone();
+            if let Some(l) = sc.last_mut() {
+              *l = Step::E(3);
+            }
+            cold_source(vec![sc, script.clone()], slog.clone(), None, true).observe_on(sched()).retry(1)
+          }
+          "interval-window-flat_map" => iv().window_with_count(2).flat_map(|w: Observable<'static, Val>| w),
           "debounce-cold" => cold_source(vec![script.clone()], slog.clone(), None, true).debounce(ms(d), sched()),
           "timeout-cold" => cold_source(vec![script.clone()], slog.clone(), None, true).timeout(ms(d), sched()),
           "observe_on-cold" => cold_source(vec![script.clone()], slog.clone(), None, true).observe_on(sched()),
